@@ -180,7 +180,7 @@ func (c *shardedMapOf[V]) ExpireAll(ctx context.Context) {
 		b := &c.hashedBuckets[i]
 		b.Lock()
 		for h, v := range b.data {
-			v.E = startTS
+			atomic.StoreInt64(&v.E, startTS)
 			b.data[h] = v
 			cnt++
 		}
